@@ -102,6 +102,35 @@ def run(chk):
                 chk.require(entails(o.st.cons, eq(v.length, L_ob + L)), "R16.1", f"body-length:{kind}:path{k}",
                             f"record body length is {v.length!r}, not len(OBNAME)+len(payload)", body.where,
                             witness=_w(o.st))
+        # second write of the same record: between two writes the payload may have been replaced (bytes / str:
+        # `record.data = ...`) or edited in place (bytearray) and the NO-FORMAT object renamed; the body must be
+        # built again from what the record holds *now* (a body kept from the first write is a stale payload)
+        if len(stored) == 1:
+            L2 = LinExpr.sym("len_payload_2")
+            for k, o in enumerate(normal):
+                st2 = o.st.clone()
+                st2.add(ge(L2, 0))
+                if kind == "bytearray":
+                    h = st2.heap[data.oid]
+                    h["length"], h["pieces"] = L2, [("param", L2, "payload2")]
+                else:
+                    st2.fields(obj)[stored[0]] = SeqV("bytes" if kind == "bytes" else "str", L2,
+                                                      [("param", L2, "payload2")])
+                phase[0] = "body2"
+                outs2 = it.call_function(body, [obj], {}, st2, body.node)
+                phase[0] = "body"
+                for k2, o2 in enumerate(x for x in outs2 if x.kind == "val"):
+                    v2 = o2.value
+                    if isinstance(v2, BufV):
+                        h2 = o2.st.heap[v2.oid]
+                        v2 = SeqV("bytes", h2["length"], list(h2["pieces"]))
+                    fresh = isinstance(v2, SeqV) and [(p[0], p[2]) for p in v2.pieces] == [("obname", "body2"),
+                                                                                          ("param", "payload2")]
+                    chk.require(fresh, "R16.1", f"second-write-rebuilds-body:{kind}:path{k}.{k2}",
+                                f"on a second write the record body pieces are "
+                                f"{[(p[0], p[2]) for p in v2.pieces] if isinstance(v2, SeqV) else v2!r}; expected the "
+                                f"reference and the payload as they are at that time (a body kept from an earlier "
+                                f"write goes stale when the payload is edited in place or replaced)", body.where)
         for o in raises:
             okr = kind == "str" and o.exc == "UnicodeEncodeError"
             chk.require(okr, "R16.1", f"only-non-ascii-text-raises:{kind}:{o.exc}",
